@@ -448,12 +448,13 @@ Definition has_key {V} (k : N) (l : list (N * V)) : bool :=
 
 (** the while loop; returns (matched, subword_state, char_index, log) *)
 Fixpoint sw_loop (fuel : nat) (v : variant) (complete : bool) (tabs : alltables) (e : env) (T : tables)
-         (word : string) (state : N) (ci : nat) (log : list invocation)
+         (acc : list N) (word : string) (state : N) (ci : nat) (log : list invocation)
   : M (bool * N * nat * list invocation) :=
   match fuel with
   | O => OutOfFuel
   | S fuel' =>
-    if Nat.leb (String.length word) ci then Ok (true, state, ci, log)
+    (* [Repaired] (df274e8): a complete word is matched only when it is exhausted in an accepting state *)
+    if Nat.leb (String.length word) ci then Ok (quirky v || complete || memN state acc, state, ci, log)
     else
       let sub := sdrop ci word in
       do s1 <- match assocN state (t_mlit T) with
@@ -461,7 +462,7 @@ Fixpoint sw_loop (fuel : nat) (v : variant) (complete : bool) (tabs : alltables)
                | None => Ok SNone
                end;
       match s1 with
-      | SCont st adv => sw_loop fuel' v complete tabs e T word st (ci + adv) log
+      | SCont st adv => sw_loop fuel' v complete tabs e T acc word st (ci + adv) log
       | SBreak => Ok (false, state, ci, log)
       | SNone =>
         do (s2, log2) <- match t_mcmd T with
@@ -473,7 +474,7 @@ Fixpoint sw_loop (fuel : nat) (v : variant) (complete : bool) (tabs : alltables)
                           | None => Ok (SNone, log)
                           end;
         match s2 with
-        | SCont st adv => sw_loop fuel' v complete tabs e T word st (ci + adv) log2
+        | SCont st adv => sw_loop fuel' v complete tabs e T acc word st (ci + adv) log2
         | SBreak => Ok (false, state, ci, log2)
         | SNone =>
           match t_mstar T with
@@ -529,20 +530,24 @@ Fixpoint sw_levels (n : nat) (level : nat) (v : variant) (tabs : alltables) (e :
 
 (** the two halves of _<cmd>_subword started in an arbitrary loop configuration (the script starts in
     state 0 at character 0) *)
-Definition subword_matches_from (v : variant) (tabs : alltables) (e : env) (T : tables) (word : string)
+Definition subword_matches_from (v : variant) (tabs : alltables) (e : env) (T : tables) (acc : list N) (word : string)
            (state : N) (ci : nat) (log : list invocation) : M (bool * list invocation) :=
-  do (matched, _, _, log1) <- sw_loop (sw_fuel T word) v false tabs e T word state ci log;
+  do (matched, _, _, log1) <- sw_loop (sw_fuel T word) v false tabs e T acc word state ci log;
   Ok (matched, log1).
 
 Definition subword_complete_from (v : variant) (tabs : alltables) (e : env) (T : tables) (word : string)
            (state : N) (ci : nat) (log : list invocation) : M (list string * list invocation) :=
-  do (_, state1, ci1, log1) <- sw_loop (sw_fuel T word) v true tabs e T word state ci log;
+  do (_, state1, ci1, log1) <- sw_loop (sw_fuel T word) v true tabs e T [] word state ci log;
   sw_levels (S (N.to_nat (t_maxlevel T))) 0 v tabs e T state1 (stake ci1 word) (sdrop ci1 word) [] [] log1.
 
 (** _<cmd>_subword_<id> matches "$word"  ->  (return code = 0, log) *)
-Definition subword_matches (v : variant) (tabs : alltables) (e : env) (T : tables) (word : string)
+Definition subword_matches (v : variant) (tabs : alltables) (e : env) (T : tables) (acc : list N) (word : string)
            (log : list invocation) : M (bool * list invocation) :=
-  subword_matches_from v tabs e T word 0 0 log.
+  subword_matches_from v tabs e T acc word 0 0 log.
+
+(** local -A accepting_states=(...) of the wrapper _<cmd>_subword_<id> *)
+Definition sub_accepting (tabs : alltables) (sid : N) : list N :=
+  match assocN sid (a_subaccepting tabs) with Some l => l | None => [] end.
 
 (** _<cmd>_subword_<id> complete "$word"  ->  (what it appends to matches, log) *)
 Definition subword_complete (v : variant) (tabs : alltables) (e : env) (T : tables) (word : string)
@@ -592,7 +597,7 @@ Fixpoint top_sub_loop (v : variant) (tabs : alltables) (e : env) (row : list (N 
     match subword_tables (a_subwords tabs) sid with
     | None => Err "no within-word function with this id"
     | Some T =>
-      do (m, log1) <- subword_matches v tabs e T word log;
+      do (m, log1) <- subword_matches v tabs e T (sub_accepting tabs sid) word log;
       if m then Ok (Some to, log1) else top_sub_loop v tabs e r word log1
     end
   end.
